@@ -139,3 +139,88 @@ func (m *Model) eval1(t *Term) evalRes {
 	}
 	return bad
 }
+
+func collectVars(t *Term, seen map[*Term]bool, out *[]*Term) {
+	if seen[t] {
+		return
+	}
+	seen[t] = true
+	if t.op == "var" {
+		*out = append(*out, t)
+		return
+	}
+	for _, a := range t.args {
+		collectVars(a, seen, out)
+	}
+}
+
+var candConsts = []string{"0", "1", "2", "3", "1000000000000000000", "2000000000000000000", "500000000000000000", "1000000000000000001", "999999999999999999", "1000000", "7"}
+
+// searchModel looks for an assignment satisfying the path condition and cond by
+// perturbing the current model one or two variables at a time. A hit is a
+// genuine witness (terms are evaluated with SMT-LIB semantics); a miss means nothing.
+func (e *Exec) searchModel(cond *Term) map[string]string {
+	if e.model == nil {
+		return nil
+	}
+	var vars []*Term
+	collectVars(cond, map[*Term]bool{}, &vars)
+	if len(vars) == 0 || len(vars) > 12 {
+		return nil
+	}
+	base := e.model.vals
+	check := func(vals map[string]string) bool {
+		m := newModel(vals)
+		if v, ok := m.evalBool(cond); !ok || !v {
+			return false
+		}
+		for _, p := range e.pc {
+			if v, ok := m.evalBool(p); !ok || !v {
+				return false
+			}
+		}
+		return true
+	}
+	tries := 0
+	for _, v := range vars {
+		if v.sort != SInt {
+			continue
+		}
+		name := strings.Trim(v.ref, "|")
+		cur, _ := new(big.Int).SetString(base[name], 10)
+		cands := append([]string(nil), candConsts...)
+		if cur != nil {
+			cands = append(cands, new(big.Int).Add(cur, big.NewInt(1)).String(), new(big.Int).Sub(cur, big.NewInt(1)).String(),
+				new(big.Int).Mul(cur, big.NewInt(2)).String())
+		}
+		// values of the other variables in the condition are natural candidates too
+		for _, w := range vars {
+			if w != v && w.sort == SInt {
+				if s, ok := base[strings.Trim(w.ref, "|")]; ok && s != "" {
+					cands = append(cands, s)
+					if wv, ok2 := new(big.Int).SetString(s, 10); ok2 {
+						cands = append(cands, new(big.Int).Add(wv, big.NewInt(1)).String(), new(big.Int).Sub(wv, big.NewInt(1)).String())
+					}
+				}
+			}
+		}
+		for _, c := range cands {
+			if c == base[name] {
+				continue
+			}
+			tries++
+			if tries > 400 {
+				return nil
+			}
+			vals := make(map[string]string, len(base)+1)
+			for k, x := range base {
+				vals[k] = x
+			}
+			vals[name] = c
+			if check(vals) {
+				return vals
+			}
+		}
+	}
+	return nil
+}
